@@ -3,6 +3,7 @@ import GeoVerif.Model.GeodProj
 import GeoVerif.Model.IntersectFix
 import GeoVerif.Spec.RealInst
 import GeoVerif.Proofs.VPTree
+import GeoVerif.Proofs.VPTreeInit
 import Mathlib.Tactic.Ring
 import Mathlib.Tactic.LinearCombination
 import Mathlib.Tactic.FieldSimp
@@ -14,7 +15,9 @@ import Mathlib.Tactic.Linarith
 * Nearest neighbour: `search_is_bruteforce` (the vantage-point-tree search of `Model/VPTree.lean` — the same definitions
   the driver executes against `NearestNeighbor::Search` — returns exactly the `k` smallest distances a brute-force scan
   of the window `(mindist, maxdist]` finds, for every metric, tree satisfying `TreeInv`, query and `k`), its
-  ingredients, `checkInv_sound`, `save_load_roundtrip`, `load_rejects`.
+  ingredients, `checkInv_sound`, `save_load_roundtrip`, `load_rejects`, `load_is_forest`; `init_establishes_inv` (the
+  tree `Initialize` builds satisfies `TreeInv`, for every `nth_element` meeting its post-condition) and the end-to-end
+  `nearest_neighbor_correct` (`Search ∘ Initialize` = brute force, no hypothesis on the tree).
 * Projections: exact-real theorems about the wrapper formulas of `Model/GeodProj.lean` around an arbitrary geodesic
   kernel.
 * `Intersect`: no theorem (the tiling search is validated by the oracles of the harness only).
@@ -173,7 +176,7 @@ theorem save_load_roundtrip (realspec maxbucket : Int) (t : Tree) (extra : List 
 def exTree : Tree := { bucket := 2, numpoints := 3, cost := 2, nodes := [.leaf [1, 2], .inner 0 0 0 (-1) 1 2 0] }
 example : WellFormed 10 exTree :=
   ⟨by decide, by decide, by decide, by decide,
-   ⟨⟨by decide, by intro ls h; cases h; rfl⟩, ⟨⟨by decide, by intro ls h; cases h⟩, trivial⟩⟩⟩
+   ⟨⟨by decide, by intro ls h; cases h; rfl⟩, ⟨⟨by decide, by intro ls h; cases h⟩, trivial⟩⟩, by decide⟩
 example : load (-63) 10 (save (-63) exTree) = .ok exTree := by decide
 
 /-- `Load(Save(t)) = t` on the binary layout as bytes (magic string, six 32-bit header words, per node the index and either
@@ -185,13 +188,14 @@ theorem save_load_roundtrip_binary (realspec maxbucket : Int) (t : Tree) (extra 
   loadBin_saveBin realspec maxbucket t extra h hrs hnp hcost hmb hr
 example : loadBin (-63) 10 (saveBin (-63) exTree) = .ok exTree := by decide
 
-/-- everything `Load` accepts passes the header checks and `Node::Check` *with the node's own position as the bound on
+/-- everything `Load` accepts passes the header checks, `Node::Check` *with the node's own position as the bound on
     its child pointers* (fix 49e729b): in particular children are stored before their parents, so the child pointers of
-    an accepted file cannot form a cycle -/
+    an accepted file cannot form a cycle — and (fix 90dea91) no node index is named twice as a child -/
 theorem load_rejects (realspec maxbucket : Int) (toks : List Int) (t : Tree) (h : load realspec maxbucket toks = .ok t) :
     0 ≤ t.bucket ∧ t.bucket ≤ maxbucket ∧ (t.nodes.length : Int) ≤ t.numpoints ∧ 0 ≤ t.cost ∧
     (∀ (j : Nat) (n : Node), t.nodes[j]? = some n → nodeCheck t.numpoints (j : Int) n = true) ∧
-    (∀ (j : Nat) v lo0 up0 c0 lo1 up1 c1, t.nodes[j]? = some (Node.inner v lo0 up0 c0 lo1 up1 c1) → c0 < j ∧ c1 < j ∧ (v : Int) < t.numpoints) := by
+    (∀ (j : Nat) v lo0 up0 c0 lo1 up1 c1, t.nodes[j]? = some (Node.inner v lo0 up0 c0 lo1 up1 c1) → c0 < j ∧ c1 < j ∧ (v : Int) < t.numpoints) ∧
+    (children t.nodes).Nodup := by
   match toks, h with
   | [], h | [_], h | [_, _], h | [_, _, _], h | [_, _, _, _], h | [_, _, _, _, _], h => simp [load] at h
   | version1 :: realspec1 :: bucket :: numpoints :: treesize :: cost :: toks', h =>
@@ -211,16 +215,16 @@ theorem load_rejects (realspec maxbucket : Int) (toks : List Int) (t : Tree) (h 
     by_cases h5 : (!decide (0 ≤ cost)) = true
     · rw [if_pos h5] at h; cases h
     rw [if_neg h5] at h
-    cases hns : loadNodes bucket.toNat numpoints treesize.toNat 0 toks' with
+    cases hns : loadNodes bucket.toNat numpoints treesize.toNat 0 [] toks' with
     | error e => rw [hns] at h; cases h
     | ok ns =>
       rw [hns] at h
       cases h
-      obtain ⟨hlen, hall⟩ := loadNodes_ok bucket.toNat numpoints treesize.toNat 0 toks' ns hns
+      obtain ⟨hlen, hall, hnd, _⟩ := loadNodes_ok bucket.toNat numpoints treesize.toNat 0 [] toks' ns hns
       simp only [Bool.not_eq_true', Bool.and_eq_false_iff, decide_eq_false_iff_not, not_or, not_not] at h3 h4 h5
       have hnode : ∀ (j : Nat) (n : Node), ns[j]? = some n → nodeCheck numpoints (j : Int) n = true := by
         intro j n hj; have := hall j n hj; simpa using this
-      refine ⟨h3.1, h3.2, ?_, h5, hnode, ?_⟩
+      refine ⟨h3.1, h3.2, ?_, h5, hnode, ?_, hnd⟩
       · show (ns.length : Int) ≤ numpoints
         rw [hlen]; omega
       · intro j v lo0 up0 c0 lo1 up1 c1 hj
@@ -228,6 +232,57 @@ theorem load_rejects (realspec maxbucket : Int) (toks : List Int) (t : Tree) (h 
         simp only [nodeCheck, Bool.and_eq_true, decide_eq_true_eq] at this
         show c0 < (j : Int) ∧ c1 < (j : Int) ∧ (v : Int) < numpoints
         omega
+
+/-- **every accepted file is a forest**: in the directed graph "node `j` → its non-negative child pointers" of a file that
+    `Load` accepts, (i) every edge goes to a *smaller* index inside the file (so there is no cycle), (ii) no node has two
+    parents, and (iii) the two child pointers of a node are different.  (Hence the nodes reachable from the root — the last
+    node — form a tree and `Search` looks at each of them at most once: the exponential blow-up of finding F53 is excluded
+    for every accepted file.)
+    What is still missing for "`Load` ⇒ `TreeInv`" — and cannot be decided by `Load`, which does not see the points:
+    that the bounds enclose the distances (`lower[l] ≤ d(v, p) ≤ upper[l]` for the points `p` below child `l`), that every
+    point index `0 … numpoints−1` occurs exactly once (indices may repeat or be absent in an accepted file, and nodes not
+    reachable from the root may exist), and that a bucket node of a file with `bucket = 0` is never empty. -/
+theorem load_is_forest (realspec maxbucket : Int) (toks : List Int) (t : Tree) (h : load realspec maxbucket toks = .ok t) :
+    (∀ (j : Nat) (n : Node) (c : Int), t.nodes[j]? = some n → c ∈ kids n → 0 ≤ c ∧ c < j) ∧
+    (∀ (j1 j2 : Nat) (n1 n2 : Node) (c : Int), t.nodes[j1]? = some n1 → t.nodes[j2]? = some n2 → c ∈ kids n1 → c ∈ kids n2 → j1 = j2) ∧
+    (∀ (j : Nat) v lo0 up0 c0 lo1 up1 c1, t.nodes[j]? = some (Node.inner v lo0 up0 c0 lo1 up1 c1) → 0 ≤ c0 → c0 ≠ c1) := by
+  obtain ⟨_, _, _, _, _, hlt, hnd⟩ := load_rejects realspec maxbucket toks t h
+  refine ⟨?_, ?_, ?_⟩
+  · intro j n c hj hc
+    cases n with
+    | leaf ls => simp [kids] at hc
+    | inner v lo0 up0 c0 lo1 up1 c1 =>
+      have := hlt j v lo0 up0 c0 lo1 up1 c1 hj
+      simp only [kids, List.mem_append] at hc
+      rcases hc with hc | hc
+      · by_cases h0 : c0 < 0
+        · simp [h0] at hc
+        · simp only [h0, if_false, List.mem_singleton] at hc; subst hc; omega
+      · by_cases h1 : c1 < 0
+        · simp [h1] at hc
+        · simp only [h1, if_false, List.mem_singleton] at hc; subst hc; omega
+  · intro j1 j2 n1 n2 c h1 h2 c1 c2
+    exact parent_unique hnd h1 h2 c1 c2
+  · intro j v lo0 up0 c0 lo1 up1 c1 hj h0 e
+    subst e
+    have hk : (kids (Node.inner v lo0 up0 c0 lo1 up1 c0)).Nodup := by
+      have hsub : ∀ (ns : List Node) (j : Nat) (n : Node), ns[j]? = some n → (children ns).Nodup → (kids n).Nodup := by
+        intro ns
+        induction ns with
+        | nil => intro j n hj; simp at hj
+        | cons m ms ih =>
+          intro j n hj hn
+          simp only [children, List.nodup_append] at hn
+          cases j with
+          | zero => simp at hj; subst hj; exact hn.1
+          | succ j => simp at hj; exact ih j n hj hn.2.1
+      exact hsub _ j _ hj hnd
+    have h0' : ¬ c0 < 0 := by omega
+    simp [kids, h0'] at hk
+
+/-- a file in which two nodes name the same child is rejected (the DAG image of finding F53, 3 nodes) -/
+example : load (-63) 10 [1, -63, 0, 3, 3, 0,  0, 0, 0, -1, 0, 0, -1,  1, 0, 5, 0, 5, 9, -1,  2, 0, 5, 0, 5, 9, 1] =
+    .error "Bad child pointers" := by decide
 
 /-! ## nearest neighbour: the search -/
 
@@ -313,5 +368,84 @@ example : TreeInv #[.leaf [1, 2], .inner 0 0 0 (-1) 1 3 0] 2 3 (fun i j => ((exP
   checkInv_sound _ _ _ _ (by decide)
 example : search #[.leaf [1, 2], .inner 0 0 0 (-1) 1 3 0] 3 2 (fun i => ((exPt i - 2).natAbs : Int))
     { k := 2, maxdist := 100, mindist := 0, exhaustive := true, tol := 0 } = some [(1, 1), (1, 2)] := by decide
+
+
+/-! ## nearest neighbour: `Initialize` establishes the invariant -/
+
+/-- the full sort the driver uses for `std::nth_element` meets the post-condition `NthSpec` of `std::nth_element`
+    (a permutation of the range; nothing before position `nth` is greater than anything from it on; the element at `nth`
+    is not greater than any later one) — so the hypothesis of the next theorems is not vacuous -/
+theorem nth_element_sort_spec : NthSpec nthSort := nthSort_spec
+
+/--
+**`Initialize` establishes `TreeInv`.**  For every distance function `d` (no metric property is needed here), every bucket
+size (0 included) and every number of points `n`, and for every function `nth` that meets the post-condition of
+`std::nth_element` (`NthSpec`; the concrete `nthSort` does: `nth_element_sort_spec`), the node array produced by the
+model `init` of `NearestNeighbor::Initialize`/`init` (`Model/VPTree.lean`: vantage point swapped to the front, distances
+to it, partition at the median by `nth`, `lower/upper[0]` = min/max of the inner half, `lower[1]` = the distance at the
+median position, `upper[1]` = max of the outer half, the farthest point of each half as its vantage point, children stored
+before the parent, bucket leaves sorted and padded with −1, the `bucket = 0` single-point nodes) satisfies `TreeInv`:
+the last node is the root of a finite tree of nodes in which every point index `0 … n−1` occurs exactly once and, for each
+internal node with vantage point `v` and each child `l`, every point `p` below that child has
+`lower[l] ≤ d v p ≤ upper[l]`.  (That children are stored before their parents, with the other demands of `Node::Check`,
+is `init_wellformed`.)  The driver compares this `init` (with `nth = nthSort`) with the tree `Initialize` really
+builds (op `nn_init`).
+-/
+theorem init_establishes_inv (nth : Nat → List IdItem → List IdItem) (hn : NthSpec nth) (d : Nat → Nat → Int)
+    (bucket n : Nat) : TreeInv (init nth d bucket n).nodes.toArray bucket n d :=
+  init_treeInv hn d bucket n
+
+/--
+**`Initialize` writes only what `Load` accepts.**  If no distance is negative (`bucket ≤ maxbucket` is tested by
+`Initialize` itself), the tree built by `init` is `WellFormed`: at most one node per point, every node passes
+`Node::Check` *with its own position as the bound on the child pointers* (children are stored before their parents;
+vantage and leaf indices `< n`; `0 ≤ lower[0] ≤ upper[0] ≤ lower[1] ≤ upper[1]` — the middle inequality is the partition
+property of `nth_element`; bucket nodes hold at least one index followed by −1 only), and no node is named twice as a child.
+Hence `save_load_roundtrip(_binary)` applies to every tree `Initialize` builds: `Load(Save(init …)) = init …`.
+-/
+theorem init_wellformed (nth : Nat → List IdItem → List IdItem) (hn : NthSpec nth) (d : Nat → Nat → Int)
+    (hd : ∀ i j, 0 ≤ d i j) (bucket n : Nat) (maxbucket : Int) (hb : (bucket : Int) ≤ maxbucket) :
+    WellFormed maxbucket (init nth d bucket n) :=
+  init_wf hn d hd bucket n maxbucket hb
+
+/-- `Load ∘ Save ∘ Initialize = Initialize` on the text layout -/
+theorem init_save_load (nth : Nat → List IdItem → List IdItem) (hn : NthSpec nth) (d : Nat → Nat → Int)
+    (hd : ∀ i j, 0 ≤ d i j) (bucket n : Nat) (realspec maxbucket : Int) (hb : (bucket : Int) ≤ maxbucket) (extra : List Int) :
+    load realspec maxbucket (save realspec (init nth d bucket n) ++ extra) = .ok (init nth d bucket n) :=
+  save_load_roundtrip realspec maxbucket _ extra (init_wellformed nth hn d hd bucket n maxbucket hb)
+
+/-- the instance the driver executes -/
+example (d : Nat → Nat → Int) (bucket n : Nat) : TreeInv (init nthSort d bucket n).nodes.toArray bucket n d :=
+  init_establishes_inv nthSort nth_element_sort_spec d bucket n
+
+/--
+**Nearest-neighbour search is correct, end to end** — no hypothesis about the tree.  For any metric space `(α, dist)`
+(`dist x x = 0`, symmetric, triangle inequality; `ℤ`-valued), any points `pt 0 … pt (n−1)`, any bucket size, any
+`nth_element` meeting its post-condition, any query point `q`, any `k`, `maxdist`, `mindist`, `exhaustive = true`,
+`tol = 0`: `Search` on the tree built by `Initialize` (both as modelled in `Model/VPTree.lean` and run by the driver
+against the implementation) terminates and returns, ascending, exactly the distances of the `k` nearest points of the
+window `mindist < d ≤ maxdist` that a brute-force scan finds.
+-/
+theorem nearest_neighbor_correct {α : Type} (dist : α → α → Int) (pt : Nat → α) (q : α)
+    (h0 : ∀ x, dist x x = 0) (hsymm : ∀ x y, dist x y = dist y x) (htri : ∀ x y z, dist x z ≤ dist x y + dist y z)
+    (nth : Nat → List IdItem → List IdItem) (hn : NthSpec nth) (n bucket : Nat) (Q : Query)
+    (hex : Q.exhaustive = true) (htol : Q.tol = 0) :
+    ∃ res, search (init nth (fun i j => dist (pt i) (pt j)) bucket n).nodes.toArray n bucket (fun i => dist (pt i) q) Q = some res ∧
+      res.map (·.1) = bruteforce n (fun i => dist (pt i) q) Q :=
+  search_is_bruteforce dist pt q h0 hsymm htri _ n bucket Q hex htol
+    (init_establishes_inv nth hn (fun i j => dist (pt i) (pt j)) bucket n)
+
+/-- … and the returned indices are distinct points of the set at exactly those distances -/
+theorem nearest_neighbor_returns_points {α : Type} (dist : α → α → Int) (pt : Nat → α) (q : α)
+    (nth : Nat → List IdItem → List IdItem) (hn : NthSpec nth) (n bucket : Nat) (Q : Query) (res : List Item)
+    (h : search (init nth (fun i j => dist (pt i) (pt j)) bucket n).nodes.toArray n bucket (fun i => dist (pt i) q) Q = some res) :
+    (res.map (·.2)).Nodup ∧ ∀ it ∈ res, ∃ p, p < n ∧ it = (dist (pt p) q, (p : Int)) :=
+  search_returns_points dist pt q _ n bucket Q (init_establishes_inv nth hn (fun i j => dist (pt i) (pt j)) bucket n) res h
+
+/-- a concrete run: the five points 0, 3, 6, 2, 5 on a line, bucket 2 — the tree, and a search on it -/
+def exD (i j : Nat) : Int := (((i : Int) * 3 % 7 - (j : Int) * 3 % 7).natAbs : Int)
+example : (init nthSort exD 2 5).nodes = [.leaf [4, 1], .leaf [3, 0], .inner 2 1 3 0 4 6 1] := by decide
+example : search (init nthSort exD 2 5).nodes.toArray 5 2 (fun i => (((i : Int) * 3 % 7 - 4).natAbs : Int))
+    { k := 2, maxdist := 100, mindist := 0, exhaustive := true, tol := 0 } = some [(1, 1), (1, 4)] := by decide
 
 end GeoVerif.Props.C17
